@@ -351,7 +351,10 @@ var strPool = []string{"", "a", "hello", "with space", "quote\"d", "back\\slash"
 
 // ctrlPool are resolver-side strings (data only, never written into documents) made of characters a JSON writer must
 // escape or pass through with care, WITHOUT any of the everyday escapes (quote, backslash, \b \f \n \r \t) next to them.
-var ctrlPool = []string{"nul\x00z", "\x01", "esc\x1b[0m", "del\x7f", "bell\x07", "us\x1f", "\x02\x03", "ls\u2028ps\u2029", "real \ufffd replacement char", "nel\u0085", "\x0b vt \x0e so"}
+var ctrlPool = []string{"nul\x00z", "\x01", "esc\x1b[0m", "del\x7f", "bell\x07", "us\x1f", "\x02\x03", "ls\u2028ps\u2029", "real \ufffd replacement char", "nel\u0085", "\x0b vt \x0e so",
+	// bytes that are not UTF-8 (a resolver may hand out anything): a lone 0xff before ordinary characters, before a quote, as
+	// the last byte, a truncated two-byte sequence at the very end
+	"a\xffbcd", "q\xff\"b\\", "last\xff", "caf\xc3"}
 
 // RandString draws a string with occasional awkward content.
 func RandString(r *rand.Rand) string {
